@@ -19,6 +19,7 @@ def eval : Svc → Nat → Res
   | .applyFn s .post k, req => match eval s req with | .ok v => .ok (mapFn k v) | .err e => .err e
   | .wrap _ s, req => eval s req
   | .mw s t, req => match eval s req with | .ok v => .ok (mapFn t v) | .err e => .err e
+  | .reenter _ _ s, req => eval s (reReq req)
 
 /-- number of `Pending` answers before `call s req` resolves -/
 def pendOf : Svc → Nat → Nat
@@ -32,6 +33,7 @@ def pendOf : Svc → Nat → Nat
   | .applyFn s .post _, req => pendOf s req
   | .wrap _ s, req => pendOf s req
   | .mw s _, req => pendOf s req
+  | .reenter _ _ s, req => pendOf s (reReq req)
 
 /-- polls of a leaf future: `p` times Pending, then the result; waker ids `w, w+1, …` -/
 def pollsLog (id : Nat) (r : Res) : Nat → Nat → List Evt
@@ -53,6 +55,7 @@ def refLog : Svc → Nat → Nat → List Evt
   | .wrap _ s, req, w => refLog s req w
   | .mw s t, req, w =>
     .mw t req :: (refLog s req w ++ (match eval s req with | .ok v => [.post t v] | .err _ => []))
+  | .reenter _ k s, req, w => reEvts k req ++ refLog s (reReq req) w
 
 def futEval : Fut → Res
   | .leafF _ _ r _ => r
@@ -106,6 +109,7 @@ theorem call_spec (s : Svc) (req w : Nat) :
     · have := ih req w; simp [call, futEval, eval, futPend, pendOf, fresh, futLog, refLog]; grind
   | wrap wr s ih => have := ih req w; simp [call, eval, pendOf, refLog]; grind
   | mw s t ih => have := ih req w; simp [call, futEval, eval, futPend, pendOf, fresh, futLog, refLog]; grind
+  | reenter wr k s ih => have := ih (reReq req) w; simp [call, eval, pendOf, refLog]; grind
 
 /-- specification of one poll of a fresh future -/
 def PollSpec (fu : Fut) (w : Nat) : Prop :=
@@ -180,6 +184,7 @@ def rdyDen : Svc → Nat × Rdy
   | .applyFn s _ _ => rdyDen s
   | .wrap _ s => rdyDen s
   | .mw s _ => rdyDen s
+  | .reenter _ _ s => rdyDen s
 
 theorem rdyDen_ne_pending (s : Svc) : (rdyDen s).2 ≠ .pending := by
   induction s with
@@ -191,6 +196,7 @@ theorem rdyDen_ne_pending (s : Svc) : (rdyDen s).2 ≠ .pending := by
   | applyFn s kind k ih => simpa [rdyDen] using ih
   | wrap w s ih => simpa [rdyDen] using ih
   | mw s t ih => simpa [rdyDen] using ih
+  | reenter wr k s ih => simpa [rdyDen] using ih
 
 def ReadySpec (s : Svc) (w : Nat) : Prop :=
   ((rdyDen s).1 = 0 → (pollReady s w).2.1 = (rdyDen s).2) ∧
@@ -256,6 +262,7 @@ def leafSteps : Svc → List Rdy
   | .applyFn s _ _ => leafSteps s
   | .wrap _ s => leafSteps s
   | .mw s _ => leafSteps s
+  | .reenter _ _ s => leafSteps s
 
 def leafIds : Svc → List Nat
   | .leaf id _ _ _ _ => [id]
@@ -266,6 +273,7 @@ def leafIds : Svc → List Nat
   | .applyFn s _ _ => leafIds s
   | .wrap _ s => leafIds s
   | .mw s _ => leafIds s
+  | .reenter _ _ s => leafIds s
 
 /-- the readiness error the combined service must report: the error of the first (left to right)
 leaf whose current step is `Err`, mapped by the enclosing `map_err`s -/
@@ -278,6 +286,7 @@ def curErr : Svc → Option Nat
   | .applyFn s _ _ => curErr s
   | .wrap _ s => curErr s
   | .mw s _ => curErr s
+  | .reenter _ _ s => curErr s
 
 /-- (leaf, waker) pairs of the leaf `poll_ready` calls in a log -/
 def rdyPolls : List Evt → List (Nat × Nat)
@@ -387,6 +396,11 @@ theorem refLog_no_repoll (s : Svc) (req w : Nat) : ∀ e ∈ refLog s req w, isR
     rcases he with rfl | he | he; · rfl
     · exact ih _ _ e he
     · split at he <;> simp at he; subst he; rfl
+  | reenter wr k s ih =>
+    intro e he; simp only [refLog, List.mem_append] at he
+    rcases he with he | he
+    · simp only [reEvts] at he; split at he <;> simp at he <;> (rcases he with rfl | rfl <;> rfl) <;> (subst he; rfl)
+    · exact ih _ _ e he
 
 /-- ids of the stages (`leaf` and `fn_service`) of a service, left to right -/
 def stageIds : Svc → List Nat
@@ -398,6 +412,7 @@ def stageIds : Svc → List Nat
   | .applyFn s _ _ => stageIds s
   | .wrap _ s => stageIds s
   | .mw s _ => stageIds s
+  | .reenter _ _ s => stageIds s
 
 /-- number of `call`s of stage `i` in a log -/
 def calledCount (i : Nat) : List Evt → Nat
@@ -447,6 +462,9 @@ theorem refLog_stage_once (s : Svc) (req w i : Nat) :
   | mw s t ih =>
     have := ih req w
     simp only [refLog, calledCount, calledCount_append, stageIds]; split <;> simp [calledCount] <;> omega
+  | reenter wr k s ih =>
+    have := ih (reReq req) w
+    simp only [refLog, calledCount_append, stageIds, reEvts]; split <;> simp [calledCount] <;> omega
 
 theorem call_log_no_waker (s : Svc) (req : Nat) : ∀ e ∈ (call s req).2, evtWaker e = none := by
   induction s generalizing req with
@@ -462,6 +480,12 @@ theorem call_log_no_waker (s : Svc) (req : Nat) : ∀ e ∈ (call s req).2, evtW
     · have := ih req; simp [call, evtWaker]; exact this
   | wrap wr s ih => simpa [call] using ih req
   | mw s t ih => have := ih req; simp [call, evtWaker]; exact this
+  | reenter wr k s ih =>
+    have := ih (reReq req)
+    intro e he; simp only [call, List.mem_append] at he
+    rcases he with he | he
+    · simp only [reEvts] at he; split at he <;> simp at he <;> (rcases he with rfl | rfl <;> rfl) <;> (subst he; rfl)
+    · exact this e he
 
 /-- one poll: Pending only if an inner leaf future answered Pending to *this* waker (or a finished
 leaf was polled again); every leaf poll of this poll carries the current waker -/
